@@ -270,6 +270,15 @@ func registerIntrinsics(M map[string]Model) {
 		m.allocBytes = m.ctx.Const(0, 64)
 		return nil
 	})
+	I("AllocTrack", func(m *Machine, fr *Frame, a []Value) Value {
+		m.allocTrack, m.allocEvents, m.allocSites = true, 0, nil
+		return nil
+	})
+	I("AllocEvents", func(m *Machine, fr *Frame, a []Value) Value {
+		m.allocTrack = false
+		return m.ctx.Const(uint64(m.allocEvents), 64)
+	})
+	I("AllocReps", func(m *Machine, fr *Frame, a []Value) Value { return m.ctx.Const(1, 64) })
 	I("MaxDepth", func(m *Machine, fr *Frame, a []Value) Value { return m.ctx.Const(uint64(m.maxDepth), 64) })
 	I("ResetMaxDepth", func(m *Machine, fr *Frame, a []Value) Value {
 		m.maxDepth = m.depth
